@@ -10,6 +10,7 @@ import (
 	"go.miragespace.co/specter/spec/protocol"
 	"go.miragespace.co/specter/spec/rpc"
 	"go.miragespace.co/specter/spec/transport"
+	"go.miragespace.co/specter/util/verifhook"
 
 	"github.com/quic-go/quic-go"
 	"go.uber.org/zap"
@@ -66,6 +67,7 @@ func (t *QUIC) reuseConnection(_ context.Context, q *quic.Conn, s *quic.Stream, 
 
 	negotiation.Reset()
 
+	verifhook.At("reuse:read", uint64(dir))
 	rUnlock := t.cachedMutex.RLock(qKey)
 	cache, cached := t.cachedConnections.Load(qKey)
 	if cached {
@@ -84,6 +86,7 @@ func (t *QUIC) reuseConnection(_ context.Context, q *quic.Conn, s *quic.Stream, 
 		}
 	}
 	rUnlock()
+	verifhook.At("reuse:status", uint64(dir))
 
 	err = rpc.Send(s, negotiation)
 	if err != nil {
@@ -98,6 +101,7 @@ func (t *QUIC) reuseConnection(_ context.Context, q *quic.Conn, s *quic.Stream, 
 	}
 	s.SetReadDeadline(time.Time{})
 
+	verifhook.At("reuse:decide", uint64(dir))
 	unlock := t.cachedMutex.Lock(qKey)
 	defer unlock()
 
